@@ -141,6 +141,11 @@ def _import_check(prop):
     return importlib.import_module('checks.' + prop.lower())
 
 
+# every run index this worker process has executed so far (state of the code under test may
+# leak from one simulated run to the next inside one process; see try_history)
+WORKER_HISTORY = []
+
+
 def batch(prop, tier, base_seed, start, count, deadline, presets=None):
     """Run `count` runs (or the given presets) and aggregate."""
     faulthandler.enable()
@@ -169,6 +174,7 @@ def batch(prop, tier, base_seed, start, count, deadline, presets=None):
             if len(agg['errors']) > 3:
                 break
             continue
+        WORKER_HISTORY.append(idx)
         agg['runs'] += 1
         agg['faults'].update(r['faults'])
         agg['probes'].update(r['probes'])
@@ -194,8 +200,12 @@ def batch(prop, tier, base_seed, start, count, deadline, presets=None):
                     agg['violations'][kk] = {
                         'clause': v[0], 'key': v[1], 'msg': v[2], 'seed': seed,
                         'run_index': idx, 'preset': preset, 'decisions': r['decisions'],
-                        'digest': r['digest'], 'count': 0,
-                        'batch_start': start if presets is None else None}
+                        'digest': r['digest'], 'count': 0, 'alternates': [],
+                        'history': list(WORKER_HISTORY[-4000:])}
+                elif len(agg['violations'][kk]['alternates']) < 3:
+                    agg['violations'][kk]['alternates'].append(
+                        {'seed': seed, 'run_index': idx, 'preset': preset,
+                         'decisions': r['decisions']})
                 agg['violations'][kk]['count'] += 1
         if n % 50 == 49:
             gc.collect()
@@ -327,9 +337,17 @@ def run_history(prop, tier, base_seed, indices):
     leaked from earlier simulated runs of the same process (e.g. a mutable default argument
     in the code under test)."""
     module = _import_check(prop)
+    flat = None
     r = None
     for i in indices:
-        r = execute(module, tier, seed=run_seed(base_seed, prop, i), want_trace=True)
+        preset = None
+        if i >= 10**9:
+            if flat is None:
+                flat = []
+                for name, plist in module.sweep(tier):
+                    flat.extend(plist)
+            preset = flat[i - 10**9]
+        r = execute(module, tier, seed=run_seed(base_seed, prop, i), preset=preset, want_trace=True)
     return r
 
 
@@ -347,20 +365,21 @@ def history_in_subprocess(prop, tier, base_seed, indices):
 
 def try_history(prop, tier, base_seed, viol):
     """-> replay path or None"""
-    start, idx = viol.get('batch_start'), viol.get('run_index')
-    if start is None or idx is None or idx - start > 3000:
+    full = viol.get('history')
+    if not full:
+        return None
+    if viol.get('history_run') is not None and full[-1] != viol['history_run']:
         return None
     target = [viol['clause'], viol['key']]
-    full = list(range(start, idx + 1))
     res = history_in_subprocess(prop, tier, base_seed, full)
-    if not res or res.get('violation', [None, None])[:2] != target:
+    if not res or (res.get('violation') or [None, None])[:2] != target:
         return None
     best = full
     k = 1
     while k < len(full):
         cand = full[-(k + 1):]
         r = history_in_subprocess(prop, tier, base_seed, cand)
-        if r and r.get('violation', [None, None])[:2] == target:
+        if r and (r.get('violation') or [None, None])[:2] == target:
             best, res = cand, r
             break
         k *= 2
@@ -499,11 +518,14 @@ def _merge(total, a):
         if kk not in total['violations']:
             total['violations'][kk] = v
         else:
-            total['violations'][kk]['count'] += v['count']
-            if len(v['decisions']) < len(total['violations'][kk]['decisions']):
-                c = total['violations'][kk]['count']
-                total['violations'][kk] = v
-                v['count'] = c
+            t = total['violations'][kk]
+            t['count'] += v['count']
+            alts = t.get('alternates', []) + [{k: v[k] for k in ('seed', 'run_index', 'preset', 'decisions')}] \
+                + v.get('alternates', [])
+            t['alternates'] = sorted(alts, key=lambda a: len(a['decisions']))[:6]
+            if len(v.get('history', [])) < len(t.get('history', [])):
+                t['history'] = v['history']
+                t['history_run'] = v['run_index']
 
 
 def write_evidence(module, tier, base_seed, total, nviol):
@@ -589,6 +611,16 @@ def _check_main(prop, tier):
         try:
             dec, nrep = shrink(module, tier, v, budget_s=45)
             if dec is None:
+                # the first instance may depend on state leaked from earlier runs of its worker:
+                # try the other recorded instances of the same violation
+                for alt in v.get('alternates', []):
+                    v2 = dict(v)
+                    v2.update(alt)
+                    dec, nrep = shrink(module, tier, v2, budget_s=30)
+                    if dec is not None:
+                        v = v2
+                        break
+            if dec is None:
                 hp = try_history(prop, tier, base_seed, v)
                 if hp:
                     nviol += 1
@@ -605,6 +637,10 @@ def _check_main(prop, tier):
             path = write_replay(module, tier, v, dec, base_seed)
         except HarnessError as e:
             print('HARNESS ERROR: %s' % e)
+            rc_ = 2
+            continue
+        except Exception as e:
+            print('HARNESS ERROR while minimising %s [%s]: %r' % (v['clause'], v['key'], e))
             rc_ = 2
             continue
         nviol += 1
